@@ -7,7 +7,7 @@
    differential runs (field-wise comparison in the harness), which is why C19 is claimed as partial. *)
 From Coq Require Import List Arith NArith Bool.
 From Coq.Strings Require Import Byte.
-From EZK Require Import Model.Forms9 Proofs.Forms9 Gen.Tables Lib.Bytes Lib.Num Lib.Utf8 Model.C19 Proofs.C19 Model.C19c Proofs.C19c.
+From EZK Require Import Model.Forms10 Proofs.Forms10 Model.Forms9 Proofs.Forms9 Gen.Tables Lib.Bytes Lib.Num Lib.Utf8 Model.C19 Proofs.C19 Model.C19c Proofs.C19c.
 Import ListNotations.
 Close Scope N_scope.
 Open Scope nat_scope.
@@ -106,3 +106,13 @@ Proof. exact not_ws_high_byte. Qed.
 
 Theorem C19_non_ascii_bytes_are_not_ascii_space : forall b : byte, (128 <= Byte.to_nat b)%nat -> ascii_ws b = false.
 Proof. exact high_bytes_are_token_bytes. Qed.
+
+(* every line reaches the field parsers as it is: a value that ends in a blank keeps it *)
+Theorem C19_lines_verbatim_guard : sdp_lines_verbatim = true.
+Proof. reflexivity. Qed.
+
+Theorem C19_line_text_unchanged : sdp_lines_verbatim = true -> forall s, line_text s = s.
+Proof. exact line_text_here. Qed.
+
+Theorem C19_trimmed_lines_refuted : line_text_form false [x20] = [] /\ line_text_form false ["a"%byte; x20] = ["a"%byte].
+Proof. exact trimmed_blank_name. Qed.
